@@ -38,7 +38,8 @@ AcceptTGS(q, p) == /\ Decrypts(p) /\ p.nonce = "same" /\ p.cname = "same" /\ (q.
                    /\ p.times # "bothBeyond"                                     \* starttime or authtime within the skew
 Accept(q, p) == IF q.kind = "AS" THEN AcceptAS(q, p) ELSE AcceptTGS(q, p)
 \* fields whose alteration the statement does not constrain for this kind of request (either outcome is acceptable)
-Open(q, f) == (q.kind = "AS" /\ f = "tktRealm") \/ (q.kind = "TGS" /\ f = "sname")
+\* kind "TGSREF" is a TGS exchange whose (perturbed) reply is a referral to another realm: the same conditions apply to it
+Open(q, f) == (q.kind = "AS" /\ f = "tktRealm") \/ (q.kind # "AS" /\ f = "sname")
 \* KRB-ERROR replies: the exchange fails and the KDC's code reaches the caller, except for the codes the client acts upon
 Handled == {24, 25, 52, 68}     \* PREAUTH_FAILED, PREAUTH_REQUIRED (retry with pre-authentication), RESPONSE_TOO_BIG (TCP), WRONG_REALM (referral)
 
